@@ -17,7 +17,9 @@ NCHUNK = {"quick": 64, "thorough": 256}
 
 
 def shards(tier, seed):
-    out = [("e2e", ch, NCHUNK[tier]) for ch in range(NCHUNK[tier])]
+    from mc.props import c13
+
+    out = [("e2e", ch, NCHUNK[tier]) for ch in range(NCHUNK[tier])] + [("hist", k) for k in range(len(c13.history_cases()))]
     for n in (2, 3, 4) if tier == "quick" else (2, 3, 4, 5):
         for ncl in (1, 2, 3):
             for mt in (0.0, 0.5, 1.0):
@@ -213,6 +215,12 @@ def run_shard(shard, tier, seed):
     if shard[0] == "seam":
         run_seam(shard, tier, seed, res)
         return res
+    if shard[0] == "hist":
+        # determinism as a function of (structure, parameters, seed): one SBC instance reused across calls
+        from mc.props import c13
+
+        c13.history_shard(shard, tier, seed, res, tag="c01.history", with_dim=False)
+        return res
     _, ch, nch = shard
     structs = _sbcfam.structure_list(tier, seed)
     for k in range(ch, len(structs), nch):
@@ -236,6 +244,12 @@ def run_shard(shard, tier, seed):
 
 def replay(case):
     out = []
+    if case["kind"] == "hist":
+        from mc.props import c13
+
+        res = Result()
+        c13.history_shard(("hist", c13.history_cases().index(case["name"])), "thorough", 0, res, tag="c01.history", with_dim=False)
+        return [v for v in res.violations if v["signature"]["step"] == case["step"]]
     if case["kind"] == "seam":
         try:
             v, _ = seam_case(case["n"], tuple(case["colours"]), [tuple(c) for c in case["clusters"]], case["levels"], case["merge_threshold"])
@@ -261,7 +275,7 @@ def describe(tier, seed):
     return {
         "rule": "(A) seam: every synthetic input (n atoms, colour vector sorted, ordered list of <=3 clusters with arbitrary non-empty index sets, a 2- or 3-level distance matrix, merge_threshold in {0,0.5,1}) "
                 "is pushed through the real _merge_clusters -> _localize_clusters -> _clean_clusters; (B) end to end: every structure of F1 (lattice gas), F2 (all single deviations of 6 base crystals + two-slab stack), "
-                "F3 (molecules in a box) and degenerate cells x parameter deviations x the seed-choice tree (scripted chooser: first choice %s, <=%d later deviations) + the real generator with 2 seeds; "
+                "F3 (molecules in a box) and degenerate cells x parameter deviations x the seed-choice tree (scripted chooser: first choice %s, <=%d later deviations) + the real generator with 2 seeds; (C) histories: sequences of get_clusters calls on ONE SBC instance (same Atoms object modified in place; A,B,A,B incl. pairs with equal atom counts) vs fresh instances; "
                 "states = executions of get_clusters / of the pipeline, transitions = seed choices made / pipeline stages" % ("all atoms for n<=8, else 3-6 class representatives" if tier == "quick" else "all atoms for n<=20", 1 if tier == "quick" else 2),
         "nontrivial_rule": "defective/perturbed structures (label with a deviation) and seam inputs whose number of clusters changed",
         "bounds": {"structures": len(structs), "by_family": fam, "param_deviations": len(_sbcfam.PARAM_DEVS) - 1, "seam_atoms": "2-4" if tier == "quick" else "2-5", "max_runs_per_structure": 64 if tier == "quick" else 200},
